@@ -50,3 +50,19 @@ Ltac res_inv :=
   | H : Ok _ = Ok _ |- _ => inversion H; subst; clear H
   | H : Raise _ = Ok _ |- _ => discriminate H
   end.
+
+Lemma inject_Z_sub a b : inject_Z (a - b) == inject_Z a - inject_Z b.
+Proof. unfold Z.sub. rewrite inject_Z_plus, inject_Z_opp. reflexivity. Qed.
+
+(* push inject_Z through +, -, *, and turn inject_Z of literals into rational literals *)
+Ltac push_inj :=
+  repeat (rewrite inject_Z_sub || rewrite inject_Z_plus || rewrite inject_Z_mult || rewrite inject_Z_opp);
+  repeat match goal with
+  | |- context [inject_Z (Zpos ?p)] => change (inject_Z (Zpos p)) with (Zpos p # 1)
+  | |- context [inject_Z (Zneg ?p)] => change (inject_Z (Zneg p)) with (Zneg p # 1)
+  | |- context [inject_Z Z0] => change (inject_Z Z0) with 0
+  end.
+
+(* lra on Q does not see through division by a literal: turn  x / 2  into  x * (1#2) *)
+Ltac div2 :=
+  unfold Qdiv in *; change (/ 2) with (1 # 2) in *.
